@@ -55,6 +55,45 @@ fn dispatch<P: Property>(prop: P, args: &[String]) -> i32 {
     }
 }
 
+/// C09 runs once per time zone: chrono reads TZ once per process, so each zone is its own (supervised) child.
+fn c09_driver(args: &[String]) -> i32 {
+    let child = args.iter().any(|a| a == "--child");
+    let mode = args.get(1).map(|s| s.as_str()).unwrap_or("quick");
+    if child || mode == "--replay" {
+        if mode == "--replay" && !child {
+            // replay under every zone
+            let mut worst = 0;
+            for tz in props::c09::TIME_ZONES {
+                std::env::set_var("TZ", tz);
+                let code = dispatch(props::c09::C09, args);
+                worst = worst.max(code);
+                if code == 1 {
+                    break;
+                }
+            }
+            return worst;
+        }
+        return dispatch(props::c09::C09, args);
+    }
+    let tier = if mode == "quick" { Tier::Quick } else { Tier::Thorough };
+    let started = std::time::Instant::now();
+    let mut worst = 0;
+    for tz in props::c09::TIME_ZONES {
+        std::env::set_var("TZ", tz);
+        std::env::set_var("VCHECK_PART", tz.replace('/', "_"));
+        let code = run::supervise("C09", &args[..2], tier);
+        eprintln!("C09 under TZ={} -> exit {}", tz, code);
+        if code == 1 {
+            worst = 1;
+            break;
+        }
+        worst = worst.max(code);
+    }
+    std::env::remove_var("VCHECK_PART");
+    run::merge_parts("C09", tier, started.elapsed().as_secs_f64(), worst == 1);
+    worst
+}
+
 fn supervise_replay(id: &str, path: &std::path::Path) -> i32 {
     use std::os::unix::process::ExitStatusExt;
     let exe = std::env::current_exe().expect("current_exe");
@@ -91,6 +130,7 @@ fn main() {
         "C06" => dispatch(props::c06::C06, &args),
         "C07" => dispatch(props::c07::C07, &args),
         "C08" => dispatch(props::c08::C08, &args),
+        "C09" => c09_driver(&args),
         "C10" => dispatch(props::c10::C10, &args),
         "C11" => dispatch(props::c11::C11, &args),
         "C12" => dispatch(props::c12::C12, &args),
